@@ -155,6 +155,13 @@ def c03_3(rep, ix, M, cc, branches):
             continue
         br = branches[label]
         te = TermEval(single_accessors(cc, label), ctxvar=arg)
+        walks = [n for s_ in br.body for n in ast.walk(s_) if isinstance(n, (ast.While, ast.For))]
+        rebinds = [n for s_ in br.body for n in ast.walk(s_) if isinstance(n, ast.Assign) and any(isinstance(t, ast.Name) and t.id == arg for t in n.targets)]
+        if walks or rebinds:
+            w = (walks + rebinds)[0]
+            rep.bad(R, ix.site(f, w), "#%s applies its operator to its own two children, each evaluated once (the grouping is the parse tree's)" % label,
+                    "`%s`: the branch walks / re-groups a chain of operators, which changes rounding and overflow behaviour of a*b/c*d" % " ".join(u(w).split())[:60], key=label + "|regroup")
+            continue
         try:
             paths = te.paths(br.body, {})
         except Inconclusive as e:
